@@ -7,7 +7,7 @@ Import ListNotations.
 Definition P12 (r : cresult) : bool :=
   r_returns r && (r_seconds r <=? 30)%N && Nat.eqb (r_left r) 0 && r_writer_closed r.
 
-Definition C12_statement : Prop := forall walk late s, P12 (close true true true true true walk late s) = true.
+Definition C12_statement : Prop := forall walk late stall s, P12 (close true true true true true true walk late stall s) = true.
 
 (* cancel_tasks leaves none of the registered tasks running, whatever the walk order and whichever of them have finished *)
 Definition C12_cancel_all_statement : Prop := forall walk, running (cancel_tasks true walk) = 0%nat.
